@@ -281,6 +281,12 @@ func (m *FieldMap) Remove(tag Tag) {
 	defer m.rwLock.Unlock()
 
 	delete(m.tagLookup, tag)
+	for i, t := range m.tags {
+		if t == tag {
+			m.tags = append(m.tags[:i], m.tags[i+1:]...)
+			break
+		}
+	}
 }
 
 // Clear purges all fields from field map.
